@@ -39,6 +39,7 @@ const (
 	metaBase  = 1000000 // + module*100000
 	statBase  = 2000000 // + module*100000
 	liveBase  = 3000000 // flow only
+	regBase   = 4000000 // flow only: generator registry changes between loads
 	modSpan   = 100000
 )
 
@@ -140,6 +141,8 @@ func main() {
 			}
 		case 3:
 			runLive(x, fm, id)
+		case 4:
+			runRegistry(x, fk, id)
 		default:
 			switch mod {
 			case 0:
@@ -168,6 +171,9 @@ func main() {
 	// live statistics (flow): six strategy pairs, designed scenarios
 	for k := 0; k < nMon/5; k++ {
 		one(liveBase+k, false)
+	}
+	for k := 0; k < nMon/3; k++ {
+		one(regBase+k, false)
 	}
 	x.rep.DistinctNontrivial = x.dist.N()
 	rulesh.Consts(x.rep)
